@@ -108,3 +108,83 @@ def check_sources():
         if {str(v) for v in spec.required_variables} != want_req:
             out.append(("required-after-materialization", f"{formula!r}: ModelSpec.required_variables = {sorted(map(str, spec.required_variables))}, data variables used are {sorted(want_req)}"))
     return out
+
+
+# ------------------------------------------------------------------------------------------------ generated formulas
+
+_NUM = ["a", "b", "c", "`x y`"]
+_COL = {"a": "a", "b": "b", "c": "c", "`x y`": "x y"}
+
+
+def generated(seed: int, n: int):
+    """[(formula, set of data columns it reads)] - the second component is known by construction, not read back from the library."""
+    import random
+
+    rng = random.Random(seed)
+
+    def expr(depth=0):
+        v = rng.choice(_NUM)
+        used = {_COL[v]}
+        k = rng.random()
+        if depth >= 2 or k < 0.25:
+            return v, used
+        if k < 0.45:
+            e2, u2 = expr(depth + 1)
+            return f"{v} {rng.choice(['+', '*', '-'])} {e2}", used | u2
+        if k < 0.6:
+            e2, u2 = expr(depth + 1)
+            return f"np.log({e2} + 10)", u2
+        if k < 0.7:
+            e2, u2 = expr(depth + 1)
+            return f"f({v}, g({e2}))", used | u2
+        if k < 0.8:
+            return f"{v}.values", used
+        if k < 0.9:
+            e2, u2 = expr(depth + 1)
+            return f"np.where({v} > 2, {v}, {e2})", used | u2
+        return f"abs({v})", used
+
+    def factor():
+        k = rng.random()
+        if k < 0.2:
+            v = rng.choice(_NUM)
+            return v, {_COL[v]}
+        if k < 0.3:
+            return "C(A)", {"A"}
+        if k < 0.38:
+            return "A", {"A"}
+        e, u = expr()
+        w = rng.choice(["I({})", "{{{}}}", "center({})", "scale({})", "log({} + 20)", "np.sqrt(abs({}))", "poly({}, 2)"])
+        if w == "{{{}}}" and ("{" in e or "}" in e):
+            w = "I({})"
+        return w.format(e), u
+
+    out, seen = [], set()
+    while len(out) < n:
+        terms, used = [], set()
+        for _ in range(rng.randint(1, 3)):
+            fs = []
+            for _ in range(rng.choice([1, 1, 2])):
+                f, u = factor()
+                fs.append(f)
+                used |= u
+            terms.append(":".join(fs))
+        rhs = " + ".join(terms)
+        if rng.random() < 0.25:
+            rhs, used = "y ~ " + rhs, used | {"y"}
+        if rhs not in seen:
+            seen.add(rhs)
+            out.append((rhs, used))
+    return out
+
+
+def check_generated(formula: str, used: set):
+    from formulaic import Formula
+
+    known = set(frame().columns)
+    root = lambda v: v if v in known else v.split(".", 1)[0]
+    req = set(root(str(v)) for v in Formula(formula).required_variables)
+    out = []
+    if req != used:
+        out.append(("required-set", f"{formula!r}: required_variables {sorted(req)}, the formula reads the columns {sorted(used)}"))
+    return out + check_formula(formula)
